@@ -43,6 +43,39 @@ M = [
 ]
 
 
+M += [
+    # ---- family E
+    ("events_before_rebalance", "env.py", "        try:\n            self.broker.rebalance(rebalancing)\n        except EndOfEpisodeError:\n            info = dict()\n            self._done = True\n        else:\n            info = {\"_rebalancing\": rebalancing}\n        self._process_nonlatent_events()\n",
+     "        self._process_nonlatent_events()\n        try:\n            self.broker.rebalance(rebalancing)\n        except EndOfEpisodeError:\n            info = dict()\n            self._done = True\n        else:\n            info = {\"_rebalancing\": rebalancing}\n", ["C02", "C08", "C04"]),
+    ("bisect_right_slot", "transmitter.py", "index = bisect.bisect_left(self.timesteps, event.time)", "index = bisect.bisect_right(self.timesteps, event.time)", ["C04", "C08"]),
+    ("latency_lt", "transmitter.py", "if sec_since_timestep <= latency:", "if sec_since_timestep < latency:", ["C04", "C08"]),
+    ("latency_wrong_neighbour", "transmitter.py", "sec_since_timestep = (event.time - timestep_previous).total_seconds()", "sec_since_timestep = (timestep - event.time).total_seconds()", ["C04", "C08", "C02"]),
+    ("unstable_sort", "transmitter.py", "        for event in sorted(events):", "        for event in sorted(events, key=lambda e: (e.time, -id(e) % 7)):", ["C04"]),
+    ("drop_last_filter", "transmitter.py", "events = sorted(e for e in self.events if e.time <= self.timesteps[-1])", "events = sorted(e for e in self.events if e.time < self.timesteps[-1])", ["C04"]),
+    ("warmup_sign", "transmitter.py", "origin = (self._current_time - self._warmup) if self._warmup else datetime.min", "origin = (self._current_time + self._warmup) if self._warmup else datetime.min", ["C04"]),
+    ("fold_end_exclusive", "transmitter.py", "steps = steps[steps <= end_date]", "steps = steps[steps < end_date]", ["C15", "C04"]),
+    ("episode_len_off_by_one", "transmitter.py", "start_dates = steps[: -(episode_length - 1)]", "start_dates = steps[: -episode_length]", ["C15"]),
+    ("env_len_no_plus_one", "env.py", "            episode_length += 1\n", "            episode_length += 0\n", ["C15"]),
+    ("walk_step", "transmitter.py", "train_start = count[: -train_size - test_size + 1 : test_size]", "train_start = count[: -train_size - test_size + 1 : max(test_size - 1, 1)]", ["C15"]),
+    ("walk_test_start", "transmitter.py", "test_start=train_start + train_size,", "test_start=train_start + train_size - 1,", ["C15"]),
+    ("queue_popleft", "env.py", "        action = self._queue_actions.pop()", "        action = self._queue_actions.popleft()", ["C08"]),
+    ("queue_maxlen", "env.py", "maxlen=self._steps_delay + 1,", "maxlen=max(self._steps_delay, 1),", ["C08"]),
+    ("reward_uses_post", "rewards.py", "class RewardSimpleReturn(AbstractReward):\n    \"\"\"Simple change of the net liquidation value of the account at each\n    step.\"\"\"\n\n    def calculate(self, env: \"tradingenv.env.TradingEnv\") -> float:\n        nlv_last_rebalancing = env.broker.track_record[-1].context_pre.nlv",
+     "class RewardSimpleReturn(AbstractReward):\n    \"\"\"Simple change of the net liquidation value of the account at each\n    step.\"\"\"\n\n    def calculate(self, env: \"tradingenv.env.TradingEnv\") -> float:\n        nlv_last_rebalancing = env.broker.track_record[-1].context_post.nlv", ["C07"]),
+    ("clip_before_scale", "rewards.py", "        ret /= self.scale\n        ret = np.clip(ret, -self.clip, +self.clip)", "        ret = np.clip(ret, -self.clip, +self.clip)\n        ret /= self.scale", ["C07"]),
+    ("context_post_stale", "broker/broker.py", "        rebalancing.context_post = self.context()\n", "        rebalancing.context_post = rebalancing.context_pre if not rebalancing.trades else self.context()\n", ["C07"]),
+    ("nlv_raise_lt", "broker/broker.py", "if raise_if_broke and nlv <= 0:", "if raise_if_broke and nlv < 0:", ["C09"]),
+    ("done_not_set", "env.py", "        except EndOfEpisodeError:\n            info = dict()\n            self._done = True\n", "        except EndOfEpisodeError:\n            info = dict()\n", ["C09"]),
+    ("last_event_not_reset", "env.py", "        self._done = False\n        self._last_event = None\n", "        self._done = False\n", ["C10", "C04"]),
+    ("reward_state_survives", "env.py", "        self._reward.reset()\n", "", ["C10"]),
+    ("contains_one_side", "spaces.py", "            and np.all(x >= self.low)\n            and np.all(x <= self.high)", "            and np.all(x >= self.low)", ["C17"]),
+    ("membership_after", "spaces.py", "        if action not in self:\n            raise ValueError(\n                \"This action does not belong to the action observation_space {}: {}\"\n                \"\".format(self.__class__.__name__, action)\n            )\n        return Rebalancing(", "        return Rebalancing(", ["C17"]),
+    ("cash_traded", "broker/allocation.py", "            if not isinstance(contract, Cash)\n", "", ["C17", "C12"]),
+    ("exchange_mid_for_flat", "exchange.py", "        elif quantity == 0:\n            return self.mid_price", "        elif quantity == 0:\n            return self.ask_price", ["C14"]),
+    ("terminate_keeps_quotes", "exchange.py", "        history = self.history\n        self.__init__()\n        self.history = history", "        history = self.history", ["C14", "C13"]),
+]
+
+
 def apply(root, rel, old, new):
     p = os.path.join(root, "tradingenv", rel)
     s = open(p, newline="").read()
